@@ -12,3 +12,6 @@ def check(rep, tier):
     rep.run(discipline.run_trace, rep, tier)
     from contracts import rules_numeric
     rep.run(rules_numeric.run, rep, tier, clauses=('N-hess',))
+    rep.run(rules_numeric.run_scale, rep)
+    from contracts import diffops
+    rep.run(diffops.run_ops, rep, tier)
